@@ -215,10 +215,13 @@ def coq_case(i, doc, dump):
         goal = "convert_doc ascii_classes D_%d = Some T_%d" % (i, i)
     else:
         goal = "False"     # the real code rejected the document: a mismatch when in the fragment
+    # outside the fragment nothing is claimed; whether the model still reproduces the real type space
+    # (it does for name reuse, for instance) is reported for information: OUT_EQ / OUT
     lines.append(
         'Goal True. tryif (assert (in_frag ascii_classes D_%d = true) by (vm_compute; reflexivity)) '
         'then (tryif (assert (%s) by (vm_compute; reflexivity)) then idtac "R %d OK" else idtac "R %d MISMATCH") '
-        'else idtac "R %d OUT". Abort.\n' % (i, goal, i, i, i))
+        'else (tryif (assert (%s) by (vm_compute; reflexivity)) then idtac "R %d OUT_EQ" else idtac "R %d OUT"). '
+        'Abort.\n' % (i, goal, i, i, goal, i, i))
     return "".join(lines)
 
 
@@ -262,7 +265,7 @@ def evaluate(tag, docs, shard=150, timeout=900):
     from concurrent.futures import ThreadPoolExecutor
     with ThreadPoolExecutor(max_workers=min(8, vlib.NCPU)) as ex:
         for out in ex.map(one, paths):
-            for m in re.finditer(r"^R (\d+) (OK|MISMATCH|OUT)\s*$", out, re.M):
+            for m in re.finditer(r"^R (\d+) (OK|MISMATCH|OUT_EQ|OUT)\s*$", out, re.M):
                 verdict[int(m.group(1))] = m.group(2)
     return verdict, gens
 
@@ -284,15 +287,18 @@ def run(n=300, seed=1, tag="convert_check", exhaustive_docs=True, show=3):
         docs.append(d)
         origin.append("random-names")
     verdict, gens = evaluate(tag, docs)
-    res = {"total": len(docs), "in_frag": 0, "out": 0, "unsupported": 0, "mismatches": [], "by_origin": {}}
+    res = {"total": len(docs), "in_frag": 0, "out": 0, "out_model_equal": 0, "unsupported": 0, "mismatches": [],
+           "by_origin": {}}
     for i, d in enumerate(docs):
         v = verdict.get(i, "MISSING")
-        o = res["by_origin"].setdefault(origin[i], {"OK": 0, "OUT": 0, "MISMATCH": 0, "UNSUPPORTED": 0, "MISSING": 0})
+        o = res["by_origin"].setdefault(origin[i], {"OK": 0, "OUT": 0, "OUT_EQ": 0, "MISMATCH": 0, "UNSUPPORTED": 0,
+                                                    "MISSING": 0})
         o[v] += 1
         if v == "OK":
             res["in_frag"] += 1
-        elif v == "OUT":
+        elif v in ("OUT", "OUT_EQ"):
             res["out"] += 1
+            res["out_model_equal"] += v == "OUT_EQ"
         elif v == "UNSUPPORTED":
             res["unsupported"] += 1
         else:
